@@ -1,5 +1,5 @@
 """Property -> rules table.  Rules are functions (ctx, repo)."""
-from .rules import ndim, iface, wrappers, rng, mech, errmodels, popmodels, switch, copies, cursors, reduced, layout, noise, filters, caches, problems, dosing, sbml, predictive, inference, plots, loglik
+from .rules import ndim, iface, wrappers, rng, mech, errmodels, popmodels, switch, copies, cursors, reduced, layout, noise, filters, caches, problems, dosing, sbml, predictive, inference, plots, loglik, purity
 
 PROPS = {}
 
@@ -378,7 +378,7 @@ prop('C18',
 
 prop('C19',
      [copies.r19_3, copies.r11_3, copies.r11_6, switch.r03_5, mech.r11_1,
-      mech.r11_5],
+      mech.r11_5, purity.r19_1, purity.r19_2, plots.r20_2],
      undecided=['multi-process behaviour (pickling, fork)',
                 'exception paths'],
      assumptions=COMMON_ASSUME,
